@@ -269,6 +269,15 @@ func c09Diag(name string, r vlib.Req) *vlib.Failure {
 				why = "debug mode adds header " + hk + " to a failing preflight"
 			}
 		}
+		// diagnostics describe the steps that passed; the origin step comes first and establishes Allow-Origin, so a
+		// debug-mode answer without Allow-Origin has nothing to describe
+		if len(b.Hdr["Access-Control-Allow-Origin"]) == 0 {
+			for hk := range b.Hdr {
+				if strings.HasPrefix(hk, "Access-Control-") {
+					why = "debug mode adds " + hk + " to a preflight whose origin step did not pass (no Access-Control-Allow-Origin)"
+				}
+			}
+		}
 		want := smCfgs[name].Status
 		if want == 0 {
 			want = 204
